@@ -222,6 +222,34 @@ def run_size(ffi, c):
         return dict(out=["err", type(e).__name__])
 
 
+def run_ov(ffi, c):
+    """buf[a:b] = <a source over the same memory>"""
+    mem = bytes.fromhex(c["mem"])
+    m = len(mem)
+    owner = ffi.new("char[]", m)
+    base = ffi.cast("char *", owner)
+    ffi.memmove(base, mem, m)
+    buf = ffi.buffer(base + c["off"], c["n"])
+    s, slen = c["s"], c["slen"]
+    kind = c["src"]
+    if kind == "buffer":
+        src = ffi.buffer(base + s, slen)
+    elif kind == "memoryview":
+        src = memoryview(ffi.buffer(base + s, slen))
+    elif kind == "cdata_slice":
+        src = owner[s:s + slen]
+    elif kind == "cdataptr":
+        src = base + s
+    else:
+        src = ffi.from_buffer("char[]", memoryview(ffi.buffer(base, m))[s:s + slen])
+    try:
+        buf[c["a"]:c["b"]] = src
+        out = ["done"]
+    except Exception as e:
+        out = ["err", type(e).__name__]
+    return dict(out=out, mem=ffi.unpack(base, m).hex())
+
+
 def in_child(fn):
     """run fn() in a forked child; returns its result or ['crash', signal-or-exit-status]"""
     import os
@@ -257,7 +285,7 @@ def main(payload):
     crash (or a sanitizer abort) is attributed to one case, which the harness reports as the replay."""
     ffi = cffi.FFI()
     ffi.cdef(CDEF)
-    fns = dict(hist=run_hist, fb=run_fb, mm=run_mm, size=run_size)
+    fns = dict(hist=run_hist, fb=run_fb, mm=run_mm, size=run_size, ov=run_ov)
     cases = payload["cases"]
     chunk = max(1, int(payload.get("chunk", 25)))
     res = [None] * len(cases)
